@@ -48,11 +48,13 @@ def handle (line : String) : String :=
     match hexToBytes? c, parseEntries es with
     | some content, some tags =>
       let st := convert content tags
-      let model := render st.secs st.syms (addAccepts content.length st.secs)
+      let model := render st.secs st.syms (addAcceptsFull content st.secs)
       match parseImpl impl with
       | none => badCase "impl output"
       | some (isecs, isyms, iadd) =>
-        if !(checkP content tags isecs isyms) then specFail model "checkP"
+        -- names that are not valid UTF-8 are outside the property's hypothesis: correspondence only
+        if !(namesValid tags) then answer model
+        else if !(checkP content tags isecs isyms) then specFail model "checkP"
         else if !iadd then specFail model "add-rejected"
         else answer model
     | _, _ => badCase "fields"
